@@ -61,6 +61,8 @@ func runScenario(sp Spec) (oc *Outcome) {
 	switch sp.Target {
 	case "server", "stream", "session":
 		scenarioServer(sp, oc)
+	case "startfail":
+		scenarioStartFail(sp, oc)
 	case "client":
 		scenarioClient(sp, oc)
 	default:
@@ -182,7 +184,7 @@ func scenarioServer(sp Spec, oc *Outcome) {
 			back = true
 		}
 	}
-	fx, err := startServer(rec, srvOpts{writeTimeout: wt, withStream: true, sndbuf: sndbuf, multicast: mcast, seed: sp.Seed, backChannel: back})
+	fx, err := startServer(rec, srvOpts{writeTimeout: wt, withStream: true, sndbuf: sndbuf, multicast: mcast, seed: sp.Seed, backChannel: back, listenFail: sp.SrvListenFail})
 	if err != nil {
 		oc.SetupErr = err.Error()
 		return
@@ -390,6 +392,9 @@ func scenarioServer(sp Spec, oc *Outcome) {
 		return
 	}
 	// afterwards: nothing the server started is left, none of its sockets is open
+	for _, w := range fx.stillOpen() {
+		oc.NotClosed = append(oc.NotClosed, "server: "+w)
+	}
 	oc.LeftAfter = stacks(waitNoLib(baseG, []string{"server"}, 1500*time.Millisecond))
 	// sockets of the harness's own peers are not the server's (a peer may get a local port number the
 	// server used: other protocol, or a loopback self-connect after the listener is gone)
@@ -440,14 +445,22 @@ func scenarioServer(sp Spec, oc *Outcome) {
 	}
 	wgPeers.Wait()
 	wgJoin.Wait()
+	for _, p := range peers {
+		p.closeBlockers()
+		for _, w := range p.stillOpen() { // the peer's own Client.Close() has returned
+			oc.NotClosed = append(oc.NotClosed, fmt.Sprintf("client peer %d: %s", p.idx, w))
+		}
+	}
 	close(stopAll)
 	wgSrc.Wait()
 	time.Sleep(5 * time.Millisecond)
 	oc.LeftFinal = stacks(waitNoLib(baseG, nil, 2*time.Second))
 	oc.FdFinal = waitFdBaseline(baseFd, time.Second)
 	finalRecheck(oc, baseG, baseFd)
+	oc.Sockets = [2]int{socketCount(baseFd), socketCount(fdSnapshot())}
 	oc.Events, oc.Counts, oc.Dropped = rec.Snapshot()
 	oc.Counts["written"] = int(written.Load())
+	oc.Counts["srv-listen-calls"] = int(fx.nListen.Load())
 	for _, p := range peers {
 		if len(p.errs) > 0 && p.idx == 0 {
 			oc.Notes = append(oc.Notes, "peer0: "+strings.Join(p.errs, "; "))
@@ -497,4 +510,28 @@ func openSessions(ev []string) []string {
 		out = append(out, s)
 	}
 	return out
+}
+
+// scenarioStartFail: Server.Start() fails half way (the second UDP listener, or the TCP listener after both
+// UDP listeners were opened): whatever had been opened must be closed again, nothing may be left running.
+func scenarioStartFail(sp Spec, oc *Outcome) {
+	baseG := goroutineIDs()
+	baseFd := fdSnapshot()
+	rec := NewRec()
+	fxf, err := startServerFx(rec, srvOpts{writeTimeout: time.Second, withStream: false, listenFail: sp.SrvListenFail, tcpFail: sp.SrvTCPFail, multicast: sp.SrvListenFail == 0 && !sp.SrvTCPFail, seed: sp.Seed})
+	if err == nil {
+		oc.SetupErr = "Start succeeded although a listener was made to fail"
+		return
+	}
+	oc.Notes = append(oc.Notes, "Start: "+err.Error())
+	oc.BoundMs = sp.boundMs()
+	for _, w := range fxf.stillOpen() {
+		oc.NotClosed = append(oc.NotClosed, "server (Start failed): "+w)
+	}
+	oc.LeftFinal = stacks(waitNoLib(baseG, nil, 2*time.Second))
+	oc.FdFinal = waitFdBaseline(baseFd, time.Second)
+	finalRecheck(oc, baseG, baseFd)
+	oc.Sockets = [2]int{socketCount(baseFd), socketCount(fdSnapshot())}
+	oc.Events = []string{"closeCalled", "closeReturned"}
+	oc.Counts = map[string]int{}
 }
